@@ -859,6 +859,46 @@ Proof.
     unfold tc_lookup; simpl. rewrite slookup_sdel_other by (intro; subst; apply N; reflexivity). reflexivity.
 Qed.
 
+(** an object is never unavailable because it is being updated: throughout Create-over / Update /
+    Apply of ANY object - before, while the Init/Inherit callback runs ([tc_during]: the previous
+    entity is still in the map), and after the new entity is published - every name that resolved
+    before still resolves; while the callback runs it resolves to exactly the previous entity. *)
+Lemma lookup_put_same : forall spaces c ns name e s,
+  match slookup ns (sset ns (sp_put c s (sset name e (sp_get c s))) spaces) with
+  | None => None | Some s2 => slookup name (sp_get c s2) end = Some e.
+Proof. intros. rewrite slookup_sset_same, sp_get_put_same, slookup_sset_same. reflexivity. Qed.
+
+Theorem update_never_unavailable : forall st o c ns name tag,
+  o = TCreate c ns name tag \/ o = TUpdate c ns name tag \/ o = TApply c ns name tag ->
+  forall c' ns' name' e, tc_lookup st c' ns' name' = Some e ->
+    tc_lookup (tc_during st o) c' ns' name' = Some e /\
+    tc_lookup (fst (tc_step st o)) c' ns' name' <> None.
+Proof.
+  intros st o c ns name tag Ho c' ns' name' e He.
+  split; [destruct Ho as [-> | [-> | ->]]; exact He|].
+  assert (Ht : tc_target o = Some (c, ns, name)) by (destruct Ho as [-> | [-> | ->]]; reflexivity).
+  destruct (cat_dec c' c) as [-> | Nc].
+  2:{ rewrite (proj1 (proj1 (other_objects_untouched st o) c ns name Ht)) by (intro X; inversion X; contradiction).
+      rewrite He; discriminate. }
+  destruct (string_dec ns' ns) as [-> | Nn].
+  2:{ rewrite (proj1 (proj1 (other_objects_untouched st o) c ns name Ht)) by (intro X; inversion X; contradiction).
+      rewrite He; discriminate. }
+  destruct (string_dec name' name) as [-> | Nm].
+  2:{ rewrite (proj1 (proj1 (other_objects_untouched st o) c ns name Ht)) by (intro X; inversion X; contradiction).
+      rewrite He; discriminate. }
+  (* the object being updated itself *)
+  unfold tc_lookup in He.
+  destruct (slookup ns (ts_spaces st)) as [s|] eqn:Es; [|discriminate].
+  destruct Ho as [-> | [-> | ->]]; simpl.
+  - destruct (String.eqb ns "") eqn:E; simpl; [unfold tc_lookup; rewrite Es, He; discriminate|].
+    rewrite Es. unfold tc_lookup; simpl. rewrite lookup_put_same. discriminate.
+  - rewrite Es, He. unfold tc_lookup; simpl. rewrite lookup_put_same. discriminate.
+  - destruct (String.eqb ns "") eqn:E; simpl; [unfold tc_lookup; rewrite Es, He; discriminate|].
+    rewrite Es, He. destruct (e_tag e =? tag); simpl.
+    + unfold tc_lookup; rewrite Es, He; discriminate.
+    + unfold tc_lookup; simpl. rewrite lookup_put_same. discriminate.
+Qed.
+
 (** * The composite statements registered in props/C11.v *)
 
 Theorem old_generation_completes :
